@@ -175,7 +175,7 @@ def structured_cases(rng: random.Random, scale: int = 1):
         add({"op": "frac_simplify", "a": e, "gen": lab})
     for mode in GE.SUM_MODES:
         for pop in (False, GE.POPS[0], GE.POPS[1]):
-            for _ in range(14 * scale):
+            for _ in range(40 * scale):
                 e, lab = GE.struct_sum_leaf(rng, rng.choice([3, 4, 4, 5]), mode=mode, pop=pop, wrap="none")
                 add({"op": "sum_simplify", "a": e, "gen": lab})
     for op in ("marginalize", "conditional", "normalize_marginalize"):
